@@ -99,46 +99,22 @@ def g_rec(n, pid):
     return _prog(pid, [], top, recs=[rec])
 
 
-def _rtypes(n):
-    """n pairwise different record field-type lists"""
-    base = [SI, BI, BOOL, STR]
-    out = []
-    k = 0
-    while len(out) < n:
-        ds = []
-        m = k
-        for _ in range(5):
-            ds.append(base[m % 4])
-            m //= 4
-        out.append([SI] + ds)
-        k += 1
-    return out
-
-
-def _default(t, i):
-    if t == SI:
-        return lit(SI, i)
-    if t == BI:
-        return lit(BI, 10 ** 12 + i)
-    if t == BOOL:
-        return {"e": "bool", "b": bool(i % 2)}
-    return {"e": "str", "s": "s%d" % i}
-
-
 def g_fmt(n, pid):
-    """n distinct record types, one variable of each (format numbers beyond 255: RNew f, RElt f e i, Decl .. f, DFmt count)"""
-    recs = _rtypes(n)
-    top = []
-    for i, r in enumerate(recs):
-        top.append({"d": "var", "x": "r%d" % i, "t": ["rec", i], "init": {"e": "mkrec", "t": ["rec", i],
-                                                                           "args": [_default(t, 13 * i + j) for j, t in enumerate(r)]}})
-    shown = sorted(set([0, 1, n - 1, n - 2, n - 3, 250, 253, 254, 255, 256, 257]))
-    for k in shown:
-        if 0 <= k < n:
-            top.append({"d": "stmt", "x": {"e": "rset", "r": var("r%d" % k), "i": 1, "v": prim("si.add", {"e": "rget", "r": var("r%d" % k), "i": 1, "rt": k},
-                                                                                                lit(SI, 5000)), "rt": k}})
-    top.append({"d": "stmt", "x": _pr(*sum([[{"e": "rget", "r": var("r%d" % k), "i": 1, "rt": k}, SP] for k in shown if 0 <= k < n], [])[:-1])})
-    return _prog(pid, [], top, recs=recs)
+    """n functions, each with a lexical level of its own (its parameter is captured and assigned by a closure): the unit
+    has more than n formats, so format numbers beyond 255 occur in DEnv, PushEnv, Lex levels, the Decl of the closure
+    variables and the DFmt count.  (n distinct record types would do as well, but type inference needs minutes for them.)"""
+    funs = []
+    for i in range(n):
+        x, k = "x%d" % i, "k%d" % i
+        lam = {"e": "lam", "ps": ["q"], "pts": [SI], "rt": SI,
+               "body": {"e": "seq", "t": SI, "es": [{"e": "asg", "x": x, "v": prim("si.add", var(x), var("q"))}, var(x)]}}
+        body = {"e": "let", "x": k, "t": ["fn", [SI], SI], "v": lam, "body":
+                {"e": "let", "x": "a", "t": SI, "v": {"e": "callv", "f": var(k), "args": [lit(SI, i)]}, "body":
+                 {"e": "seq", "t": SI, "es": [prim("si.add", var("a"), {"e": "callv", "f": var(k), "args": [lit(SI, 1)]})]}}}
+        funs.append(_fun("g%d" % i, [x], [SI], SI, body))
+    shown = sorted(set([0, 1, n - 1, n - 2, n - 3, 249, 250, 251, 252, 253, 254, 255, 256, 257]))
+    top = [{"d": "stmt", "x": _pr({"e": "call", "fi": k + 1, "args": [lit(SI, 1)]})} for k in shown if 0 <= k < n]
+    return _prog(pid, funs, top)
 
 
 def g_clos(n, pid):
@@ -223,24 +199,18 @@ def t_domlex(n):
 
 
 def t_multi(n):
-    """functions that return several values, declared after n record types: the format of their value lists lies
-    beyond 255 (the format field of Prog, MFmt f, Values)"""
-    recs = _rtypes(n)
-    names = {SI: "SingleInteger", BI: "Integer", BOOL: "Boolean", STR: "String"}
-    o = ['#include "axllib"', "import from SingleInteger, Integer, Boolean, String;"]
-    for i, r in enumerate(recs):
-        o.append("R%d ==> Record(%s);" % (i, ", ".join("f%d: %s" % (j, names[t]) for j, t in enumerate(r))))
-    for i, r in enumerate(recs):
-        vals = []
-        for j, t in enumerate(r):
-            vals.append({SI: "%d" % (i + j), BI: "%d" % (10 ** 12 + i), BOOL: "true" if i % 2 else "false", STR: '"s%d"' % i}[t])
-        o.append("r%d: R%d := [%s];" % (i, i, ", ".join(vals)))
+    """functions that return several values, declared after n functions with a lexical level each: the format of their
+    value lists lies beyond 255 (the format field of Prog, MFmt f, Values)"""
+    o = ['#include "axllib"', "import from SingleInteger, Integer;"]
+    for i in range(n):
+        o.append("g%d(x%d: SingleInteger): SingleInteger == { k%d: SingleInteger -> SingleInteger := (q: SingleInteger): SingleInteger "
+                 "+-> { free x%d; x%d := x%d + q; x%d }; k%d(%d) + k%d(1) }" % (i, i, i, i, i, i, i, i, i, i))
     o.append("two(x: SingleInteger): (SingleInteger, SingleInteger) == (x + 1, x + 2);")
     o.append("three(x: SingleInteger): (SingleInteger, Integer, SingleInteger) == (x + 1, 7, x + 3);")
     o.append("(a, b) := two(5);")
     o.append("(c, d, e) := three(8);")
     o.append("print << a << \" \" << b << \" \" << c << \" \" << d << \" \" << e << newline;")
-    o.append("print << %s << newline;" % ' << " " << '.join("r%d.f0" % i for i in sorted(set([0, 1, n - 1, n - 2, 255, 256, 257])) if i < n))
+    o.append("print << %s << newline;" % ' << " " << '.join("g%d(1)" % i for i in sorted(set([0, 1, n - 1, n - 2])) if i < n))
     return "\n".join(o) + "\n"
 
 
@@ -250,7 +220,7 @@ def t_name(n):
     b = "x" + "".join(chr(97 + (5 * i) % 26) for i in range(n))
     o = ['#include "axllib"', "import from SingleInteger;",
          "%s: SingleInteger := 41;" % a,
-         "%s(q: SingleInteger): SingleInteger == { %s := %s + q; %s * 2 }" % (b, a, a, a),
+         "%s(q: SingleInteger): SingleInteger == { free %s; %s := %s + q; %s * 2 }" % (b, a, a, a, a),
          "print << %s(1) << \" \" << %s << newline;" % (b, a)]
     return "\n".join(o) + "\n"
 
@@ -264,7 +234,7 @@ def t_bint(n):
          "big(x: Integer): Integer == x + %s;" % a,
          "print << big(1) << newline;",
          "print << (big(0) rem %s) << newline;" % b,
-         "print << -%s << newline;" % a]
+         "print << (0 - big(0)) << newline;"]
     return "\n".join(o) + "\n"
 
 
@@ -273,98 +243,65 @@ TEXT = {"domlex": t_domlex, "multi": t_multi, "name": t_name, "bint": t_bint}
 
 # ---- measuring the FOAM text -------------------------------------------------------------------------------
 
-_RX1 = re.compile(r"\((Loc|Par|Glo|Const|Fluid|Env|RNew|Label|EEnv|PRef|TRNew|RRElt|Lex|RElt|EElt|IRElt|TRElt|PushEnv|MFmt|RRNew) ([0-9]+)")
-_RXLEX = re.compile(r"\(Lex ([0-9]+) ([0-9]+)")
-_RXRELT = re.compile(r"\(RElt ([0-9]+) ")
-_RXGOTO = re.compile(r"\(Goto ([0-9]+)\)")
-_RXDECL = re.compile(r'\((G?Decl) [A-Za-z0-9]+ "((?:[^"\\]|\\.)*)" -?[0-9]+ ([0-9]+)')
+def _int(x):
+    return int(x) if isinstance(x, str) and x.isdigit() else None
 
 
-def measure(fm):
-    """field kind of FoamCodec.tla -> largest value in the FOAM text.
-    idx:<Tag> first index of a one-index node; midx:<Tag> largest index of a several-index node; count:<Tag> argument
-    count of an n-ary node (only those cheap to count in text); decl:str / decl:fmt string length / format of a Decl"""
+def measure(tree):
+    """tree: nested token lists of a FOAM text (units.nest(units.sx_tokens(text))).  Returns field kind of
+    spec/FoamCodec.tla (SourceFields) -> largest value that occurs in the text."""
     out = {}
 
     def up(k, v):
-        if v > out.get(k, -1):
+        if v is not None and v > out.get(k, -1):
             out[k] = v
-    for m in _RX1.finditer(fm):
-        t = m.group(1)
-        up(("midx:" if t in ("Lex", "RElt", "EElt", "IRElt", "TRElt") else "idx:") + t, int(m.group(2)))
-    for m in _RXLEX.finditer(fm):
-        up("midx:Lex", int(m.group(2)))
-    for m in _RXGOTO.finditer(fm):
-        up("label:Goto", int(m.group(1)))
-    for m in _RXDECL.finditer(fm):
-        up("decl:str", len(m.group(2)))
-        up("decl:fmt", int(m.group(3)))
-    # last field of RElt / EElt: `(RElt f <expr> i)' -- the closing index precedes the parenthesis
-    for m in re.finditer(r"\((RElt|EElt|IRElt) [0-9]+ (?:\([^()]*(?:\([^()]*\)[^()]*)*\)) ([0-9]+)(?: ([0-9]+))?\)", fm):
-        up("midx:" + m.group(1), int(m.group(2)))
-        if m.group(3):
-            up("midx:" + m.group(1), int(m.group(3)))
-    # counts: DDecl / DFmt / DDef / Seq are laid out one argument per line, indented two columns deeper than the head
-    lines = fm.split("\n")
-    stack = []           # (indent, tag, count)
-    for ln in lines:
-        s = ln.lstrip(" ")
-        if not s:
-            continue
-        ind = len(ln) - len(s)
-        while stack and stack[-1][0] >= ind:
-            i0, t0, c0 = stack.pop()
-            up("count:" + t0, c0)
-        if stack and ind == stack[-1][0] + 2:
-            stack[-1][2] += 1
-        m = re.match(r"\((DDecl|DFmt|DDef|Seq|DEnv|Values|Arr)\b(.*)$", s)
-        if m and not s.rstrip().endswith(")" * 1) or (m and s.count("(") > s.count(")")):
-            stack.append([ind, m.group(1), 0])
-        elif m:
-            # a node on one line: count its top-level arguments
-            inner = s[1:s.rindex(")")] if ")" in s else s[1:]
-            up("count:" + m.group(1), max(0, _args(inner) - 1))
-    while stack:
-        i0, t0, c0 = stack.pop()
-        up("count:" + t0, c0)
-    for m in re.finditer(r"\(BInt (-?[0-9]+)\)", fm):
-        up("bint:places", (abs(int(m.group(1))).bit_length() + 15) // 16)
-    for m in re.finditer(r"\(DEnv((?: [0-9]+)+)\)", fm):
-        for x in m.group(1).split():
-            up("ilist:DEnv", int(x))
+
+    def go(x):
+        if not isinstance(x, list) or not x:
+            return
+        t = x[0]
+        if isinstance(t, str):
+            a = x[1:]
+            if t in ("Loc", "Par", "Glo", "Const", "Label") and a:
+                up("idx:" + t, _int(a[0]))
+            elif t == "Lex" and len(a) >= 2:
+                up("midx:Lex", _int(a[0]))
+                up("midx:Lex", _int(a[1]))
+            elif t == "RElt" and len(a) >= 3:
+                up("midx:RElt", _int(a[0]))
+                up("midx:RElt", _int(a[2]))
+            elif t == "EElt" and len(a) >= 4:
+                for k in (0, 2, 3):
+                    up("midx:EElt", _int(a[k]))
+            elif t in ("DDecl", "Arr"):
+                up("count:" + t, len(a) - 1)
+            elif t in ("DFmt", "DDef", "Seq"):
+                up("count:" + t, len(a))
+            elif t == "DEnv":
+                for y in a:
+                    up("ilist:DEnv", _int(y))
+            elif t in ("Decl", "GDecl") and len(a) >= 4:
+                if isinstance(a[1], str) and a[1].startswith('"'):
+                    up("decl:str", len(a[1]) - 2)
+                up("decl:fmt", _int(a[3]))
+            elif t == "Prog" and len(a) >= 4:
+                up("prog:labels", _int(a[1]))
+                up("prog:fmt", _int(a[3]))
+            elif t == "BInt" and a and isinstance(a[0], str):
+                try:
+                    up("bint:places", (abs(int(a[0])).bit_length() + 15) // 16)
+                except ValueError:
+                    pass
+            elif t == "PushEnv" and a:
+                up("fix:PushEnv", _int(a[0]))
+        for y in x:
+            if isinstance(y, list):
+                go(y)
+    import sys
+    lim = sys.getrecursionlimit()
+    sys.setrecursionlimit(max(lim, 20000))
+    try:
+        go(tree)
+    finally:
+        sys.setrecursionlimit(lim)
     return out
-
-
-def _args(s):
-    """number of top-level items of an s-expression body"""
-    depth = n = 0
-    tok = False
-    instr = False
-    i = 0
-    while i < len(s):
-        ch = s[i]
-        if instr:
-            if ch == "\\":
-                i += 1
-            elif ch == '"':
-                instr = False
-        elif ch == '"':
-            instr = True
-            if depth == 0 and not tok:
-                n += 1
-            tok = True
-        elif ch == "(":
-            if depth == 0:
-                n += 1
-            depth += 1
-            tok = False
-        elif ch == ")":
-            depth -= 1
-            tok = False
-        elif ch in " \t\n":
-            tok = False
-        elif depth == 0 and not tok:
-            n += 1
-            tok = True
-        i += 1
-    return n
